@@ -1,10 +1,13 @@
 ------------------------------ MODULE Gen_Tui ------------------------------
-(* Step G for C17: every transition (state, key, state') of the reachable   *)
-(* graph of Tui, as a key sequence from start-up: the breadth-first         *)
-(* (shortest) history of the source state followed by the key.  The action  *)
-(* constraint is evaluated for every generated transition, including those  *)
-(* into states already seen; the VIEW keeps one history per state.          *)
+(* Step G for C17: one line per reachable state of Tui: the table (n rows,  *)
+(* m tracked aircraft) and the breadth-first (shortest) event history that  *)
+(* reaches the state from start-up, plus one line with the event alphabet.  *)
+(* The engine applies every event of the alphabet to the state each history *)
+(* leads to, which covers every transition (state, event) of the graph.     *)
+(* Emit is an "invariant" that is evaluated once per distinct state (the    *)
+(* VIEW hides the history, so the first history found is the one printed).  *)
 EXTENDS Tui, TLC, Json
 View == st
-Emit == PrintT(ToJson([n |-> st.n, keys |-> hist']))
+ASSUME PrintT(ToJson([alphabet |-> Keys \ {"Tick"}, ticks |-> TickW]))
+Emit == PrintT(ToJson([n |-> st.n, m |-> st.m, keys |-> hist]))
 =============================================================================
